@@ -6,14 +6,14 @@ set -u
 export GOFLAGS=-mod=mod GOPROXY=off GOSUMDB=off GOTOOLCHAIN=local
 WT=$1; N=$2; PKG=$3; DEMO=$4; RUN=$5
 cd $WT || exit 2
-git checkout -q -- . ; rm -f $PKG/zz_seed_demo_test.go
+git checkout -q -- . ; rm -f $PKG/zz_seed_demo_*_test.go
 git apply --whitespace=nowarn SEEDED/$N/patch.diff || { echo "PATCH-DOES-NOT-APPLY"; exit 2; }
 go build ./... || { echo "BUILD-FAILS"; git checkout -q -- .; exit 2; }
 if go test -vet=off -count=1 ./... > /tmp/confirm-suite.$$ 2>&1; then echo "suite: PASS with change"; else echo "suite: FAILS with change"; grep -v "^ok\|no test files" /tmp/confirm-suite.$$ | head -20; fi
-cp SEEDED/$N/$DEMO $PKG/zz_seed_demo_test.go
+i=0; for f in $(echo $DEMO | tr ',' ' '); do i=$((i+1)); cp SEEDED/$N/$f $PKG/zz_seed_demo_${i}_test.go; done
 if go test -vet=off -count=1 -run "$RUN" ./$PKG/ > /tmp/confirm-demo.$$ 2>&1; then echo "demo WITH change: PASS (unexpected)"; else echo "demo WITH change: FAIL (expected)"; fi
 tail -5 /tmp/confirm-demo.$$ | cut -c1-200
 git checkout -q -- .
 if go test -vet=off -count=1 -run "$RUN" ./$PKG/ > /tmp/confirm-demo2.$$ 2>&1; then echo "demo WITHOUT change: PASS (expected)"; else echo "demo WITHOUT change: FAIL (unexpected)"; tail -5 /tmp/confirm-demo2.$$; fi
-rm -f $PKG/zz_seed_demo_test.go /tmp/confirm-*.$$
+rm -f $PKG/zz_seed_demo_*_test.go /tmp/confirm-*.$$
 git status --porcelain | grep -v SEEDED | head
